@@ -194,6 +194,29 @@ def run_case(case):
                         except Exception as e:
                             bad("gradient", "c16:gradient:raises:%s" % type(e).__name__, repr(e), ex2)
                     last = ex
+        # the tables must still be what they were after all difference/gradient calls (no in-place edits)
+        try:
+            dn2 = np.asarray(g.edge_node_distances.values, dtype=float)
+            df2 = np.asarray(g.edge_face_distances.values, dtype=float)
+            en2 = np.asarray(g.edge_node_connectivity.values)
+            ef2 = np.asarray(g.edge_face_connectivity.values)
+            for nm, a, b in (("edge_node_distances", dn, dn2), ("edge_face_distances", df, df2), ("edge_node_connectivity", en, en2), ("edge_face_connectivity", ef, ef2)):
+                if a.shape != b.shape or not np.array_equal(a, b):
+                    bad("state", "c16:%s-changed-by-difference/gradient" % nm, "%s read again after the difference()/gradient() calls differs from its first reading: %r -> %r" % (nm, a.tolist()[:6], b.tolist()[:6]))
+        except Exception as e:
+            bad("state", "c16:reread-raises:%s" % type(e).__name__, repr(e))
+        # and a fresh grid on which gradient() runs *before* the tables are read
+        if prov != "distances":
+            try:
+                g3, _ = _mk(m, prov)
+                build.uxda(g3, build.generic_field(m.n_face), "n_face", name="t").gradient()
+                df3 = np.asarray(g3.edge_face_distances.values, dtype=float)
+                dn3 = np.asarray(g3.edge_node_distances.values, dtype=float)
+                if not (np.all(np.abs(df3 - ref_df) <= TOL) and np.all(np.abs(dn3 - ref_dn) <= TOL)):
+                    bad("state", "c16:distances-after-gradient-first", "edge distances read after an earlier gradient() differ from geometry: %r" % df3.tolist()[:6])
+                res["transitions"] += 2
+            except Exception as e:
+                bad("state", "c16:gradient-first-raises:%s" % type(e).__name__, repr(e))
         res["outcomes"].append(digest((np.round(dn, 9), np.round(df, 9))))
     res["axes"] = {"mesh": {case["mesh"]: res["evaluations"]}, "provenance": {prov: res["evaluations"]}}
     res["sample"] = {"mesh": case["mesh"], "prov": prov, "last": last}
